@@ -39,6 +39,7 @@ enum Api
     IRFFT = 11,
     PLAN_R = 12,
     IRFFT_HALF = 13,
+    IRFFT_ODD = 14,
     XCORR = 20,
     HILBERT = 21,
     FFTFILT = 22,
@@ -58,6 +59,7 @@ static const char* api_name(int a) {
     case XCORR: return "xcorr";
     case HILBERT: return "hilbert";
     case FFTFILT: return "FftFilter";
+    case IRFFT_ODD: return "irfft_odd";
     case CZT: return "czt";
     }
     return "?";
@@ -120,6 +122,15 @@ static std::vector<double> do_request(int api, int n) {
         if (n % 2) { return flat(fft(rinput(n))); }
         arr_cmplx X = hsym(n);
         return flat(irfft(arr_cmplx(X.slice(0, n / 2 + 1)), n));
+    }
+    case IRFFT_ODD: {   // an odd length is rejected; the request itself must leave nothing behind
+        bool threw = false;
+        try {
+            (void)irfft(hsym(n + 1), n + 1);
+        } catch (const std::exception&) {
+            threw = true;
+        }
+        return {threw ? 1.0 : 0.0};
     }
     case PLAN_R: { FftPlanR p(n); return flat(p(rinput(n))); }
     case XCORR: return flat(xcorr(rinput(n), rinput(n + 3)));
@@ -231,9 +242,13 @@ int main(int argc, char** argv) {
     // pow2, composites sharing prime sub-plans (3, 5, 7), a small prime, a Bluestein prime: more than the cache holds
     const std::vector<int> alphaC = {6, 12, 15, 16, 21, 43};
     const std::vector<int> alphaR = {12, 15, 30, 32, 42, 86};
+    // second pair of alphabets: Bluestein primes that share a padded chirp length (43, 47, 61 -> 128) with their doubles and a
+    // power of two; real lengths chained by n/2 + 1 = m (a full spectrum of m bins is as long as a half spectrum of n)
+    const std::vector<int> alphaC2 = {43, 47, 61, 86, 94, 64};
+    const std::vector<int> alphaR2 = {4, 6, 10, 18, 34, 86};
 
     if (mode == "seqs") {
-        const auto& alpha = (family == "C") ? alphaC : alphaR;
+        const auto& alpha = (family == "C") ? alphaC : (family == "R") ? alphaR : (family == "C2") ? alphaC2 : alphaR2;
         const int A = (int)alpha.size();
         long seqno = 0;
         for (int len = 1; len <= maxlen; ++len) {
@@ -250,12 +265,15 @@ int main(int argc, char** argv) {
                     for (int i = 0; i < len; ++i, c /= A) {
                         const int n = alpha[c % A];
                         int api;
-                        if (family == "C") {
+                        if (family[0] == 'C') {
                             const int v = (int)((seqno + i) % 4);
                             api = v == 0 ? FFT_C : v == 1 ? IFFT : v == 2 ? PLAN_C : FFT_PAD;
-                        } else {
+                        } else if (family == "R") {
                             const int v = (int)((seqno + i) % 4);
                             api = v == 0 ? RFFT : v == 1 ? IRFFT : v == 2 ? PLAN_R : IRFFT_HALF;
+                        } else {
+                            const int v = (int)((seqno / 3 + i) % 3);   // full spectrum, half spectrum, and a rejected odd length in between
+                            api = v == 0 ? IRFFT : v == 1 ? IRFFT_HALF : IRFFT_ODD;
                         }
                         call(js, api, n);
                     }
